@@ -191,3 +191,14 @@ func VerifC18Restore(cc *Session, sn *VerifC18Snap, order []string, co net.Conn)
 		cc.c.namespace = cc.namespace
 	}
 }
+
+// VerifC18BumpNamespace makes the manager serve, under `name`, a copy of the
+// current namespace whose change index is one higher: what sessions observe of
+// a reload (ReloadNamespacePrepare/Commit) without rebuilding the namespace.
+func VerifC18BumpNamespace(m *Manager, name string) {
+	current, _, _ := m.switchIndex.Get()
+	old := m.namespaces[current].namespaces[name]
+	cp := *old
+	cp.namespaceChangeIndex = old.namespaceChangeIndex + 1
+	m.namespaces[current].namespaces[name] = &cp
+}
